@@ -27,4 +27,17 @@ extern "C" void probe_iptr() {
   from_move = std::move(d);
   Sink(from_copy);
   Sink(from_move);
+  // every comparison operator of the handle
+  Base* raw = nullptr;
+  Sink(from_copy == d);
+  Sink(from_copy != d);
+  Sink(from_copy == raw);
+  Sink(from_copy != raw);
+  Sink(raw == from_copy);
+  Sink(raw != from_copy);
+  Sink(from_copy == nullptr);
+  Sink(nullptr == from_copy);
+  Sink(from_copy != nullptr);
+  Sink(nullptr != from_copy);
+  Sink(from_copy < from_move);
 }
